@@ -29,7 +29,7 @@ from fractions import Fraction
 from common import rng
 
 TIMEOUT = 60
-BAND_DEADLINE = 10
+BAND_DEADLINE = 60   # bandsample takes milliseconds; the deadline only has to tell a hang from a loaded machine
 SHRINK_DEADLINE = 6
 
 TRUSTED = [
